@@ -95,29 +95,115 @@ pub mod unit_nuts {
     //@rules R-lit
     //@end
 
+    // ---- C04: the doubling/halving heuristic for the first step size (Hoffman & Gelman Algorithm 4, as ported) ----
+    /// log acceptance ratio of one leapfrog step of size e from (x, r):  L(x') - L(x) - (r'.r' - r.r)/2
+    pub open spec fn lap<B: AutodiffBackend, G: GradientTarget<B>>(t: &G, x: V, r: V, e: XR) -> XR {
+        let (p1, lp1) = lf::<B, G>(t, Pt { x: x, r: r, g: t.grad(x) }, e);
+        xr_sub(xr_sub(lp1, t.lp(x)), xr_mul(xr_sub(vdot(p1.r, p1.r), vdot(r, r)), half()))
+    }
+    pub open spec fn ln2() -> XR { xr_ln(XR::Fin(2real)) }
+    /// direction: double (a = 1) when the acceptance ratio of the first trial step exceeds 1/2, halve (a = -1) otherwise
+    pub open spec fn dir(l: XR) -> real { if xr_gt(l, xr_ln(half())) { 1real } else { -1real } }
+    /// keep doubling / halving while  a * log ratio > -a * ln 2,  i.e. while (ratio)^a > 2^(-a)
+    pub open spec fn keep_going(a: real, l: XR) -> bool { xr_gt(xr_mul(XR::Fin(a), l), xr_mul(XR::Fin(-a), ln2())) }
+    pub open spec fn fac(a: real) -> real { if a == 1real { 2real } else { 1real / 2real } }
+    /// the i-th candidate: k/2 * (2^a)^i
+    pub open spec fn eps_seq(k: real, a: real, i: nat) -> real decreases i { if i == 0 { k / 2real } else { eps_seq(k, a, (i - 1) as nat) * fac(a) } }
+    pub open spec fn hpow(j: nat) -> real decreases j { if j == 0 { 1real } else { hpow((j - 1) as nat) / 2real } }
+    pub open spec fn all_fin(v: V) -> bool { !(exists |i: int| 0 <= i < v.len() && !((#[trigger] v[i]) is Fin)) }
+    /// the first trial step 2^-j is backed off while its log-density AND the gradient of the very first trial (step 1) are both not finite
+    pub open spec fn backoff<B: AutodiffBackend, G: GradientTarget<B>>(t: &G, x: V, r: V, j: nat) -> bool {
+        let p0 = Pt { x: x, r: r, g: t.grad(x) };
+        !(lf::<B, G>(t, p0, XR::Fin(hpow(j))).1 is Fin) && !all_fin(lf::<B, G>(t, p0, XR::Fin(1real)).0.g)
+    }
+    /// `e` is what the heuristic returns after j back-off halvings and n doubling/halving steps
+    pub open spec fn heuristic<B: AutodiffBackend, G: GradientTarget<B>>(t: &G, x: V, r: V, j: nat, n: nat, e: XR) -> bool {
+        let k = hpow(j);
+        let l0 = lap::<B, G>(t, x, r, XR::Fin(k));
+        let a = dir(l0);
+        &&& forall |i: nat| i < j ==> #[trigger] backoff::<B, G>(t, x, r, i)
+        &&& !backoff::<B, G>(t, x, r, j)
+        &&& e == XR::Fin(eps_seq(k, a, n))
+        &&& n == 0 ==> !keep_going(a, l0)
+        &&& n > 0 ==> keep_going(a, l0) && !keep_going(a, lap::<B, G>(t, x, r, XR::Fin(eps_seq(k, a, n))))
+        &&& forall |i: nat| 1 <= i < n ==> keep_going(a, lap::<B, G>(t, x, r, XR::Fin(#[trigger] eps_seq(k, a, i))))
+    }
+    proof fn lemma_hpow_pos(j: nat) ensures hpow(j) > 0real decreases j { if j > 0 { lemma_hpow_pos((j - 1) as nat); } }
+    proof fn lemma_eps_seq_pos(k: real, a: real, i: nat) requires k > 0real ensures eps_seq(k, a, i) > 0real decreases i {
+        if i > 0 {
+            lemma_eps_seq_pos(k, a, (i - 1) as nat);
+            assert(eps_seq(k, a, (i - 1) as nat) * fac(a) > 0real) by(nonlinear_arith) requires eps_seq(k, a, (i - 1) as nat) > 0real, fac(a) > 0real;
+        }
+    }
+
     #[verifier::exec_allows_no_decreases_clause]
     fn find_reasonable_epsilon<B: AutodiffBackend, GTarget: GradientTarget<B>>(position: Tensor<B, 1>, mom: Tensor<B, 1>, gradient_target: &GTarget) -> (r: T)
-        ensures val(r) is Fin && val(r)->Fin_0 > 0real       // [C04.initial_step_size_is_positive_and_finite]
+        ensures val(r) is Fin && val(r)->Fin_0 > 0real,       // [C04.initial_step_size_is_positive_and_finite]
+            exists |j: nat, n: nat| heuristic::<B, GTarget>(gradient_target, v1(position), v1(mom), j, n, val(r)),     // [C04.initial_step_size_is_the_doubling_halving_heuristic]
     //@body id=nuts_find_eps file=src/nuts.rs name=find_reasonable_epsilon props=C04,C14
     //@sig fn find_reasonable_epsilon < B , T , GTarget > (position : Tensor < B , 1 > , mom : Tensor < B , 1 > , gradient_target : & GTarget ,) -> T where T : Float + Element , B : AutodiffBackend , GTarget : GradientTarget < T , B > + Sync ,
     //@rules R-lit R-destruct
+    //@anchor g0 scope=fn pos=after match="^let mut k = "
+    //@| let ghost mut j: nat = 0;
+    //@| let ghost p0 = Pt { x: v1(position), r: v1(mom), g: gradient_target.grad(v1(position)) };
     //@loop 1
-    //@| invariant v1(ulogp_prime).len() == 1, v1(ulogp).len() == 1,
-    //@|     val(k) is Fin && val(k)->Fin_0 > 0real, val(half) == XR::Fin(1real / 2real), val(epsilon) == XR::Fin(1real),
+    //@| invariant v1(ulogp) == seq![gradient_target.lp(v1(position))], v1(grad) == p0.g,
+    //@|     p0 == (Pt { x: v1(position), r: v1(mom), g: gradient_target.grad(v1(position)) }),
+    //@|     val(k) == XR::Fin(hpow(j)), val(half) == XR::Fin(1real / 2real), val(epsilon) == XR::Fin(1real), // [C04.initial_step_size_is_the_doubling_halving_heuristic]
+    //@|     v1(grad_prime) == lf::<B, GTarget>(gradient_target, p0, XR::Fin(1real)).0.g, // [C04.initial_step_size_is_the_doubling_halving_heuristic]
+    //@|     v1(ulogp_prime) == seq![lf::<B, GTarget>(gradient_target, p0, XR::Fin(hpow(j))).1], // [C04.initial_step_size_is_the_doubling_halving_heuristic]
+    //@|     v1(mom_prime) == lf::<B, GTarget>(gradient_target, p0, XR::Fin(hpow(j))).0.r, // [C04.initial_step_size_is_the_doubling_halving_heuristic]
+    //@|     forall |i: nat| i < j ==> #[trigger] backoff::<B, GTarget>(gradient_target, v1(position), v1(mom), i), // [C04.initial_step_size_is_the_doubling_halving_heuristic]
+    //@anchor g1 scope=loop:1 pos=start
+    //@| proof {
+    //@|     assert(backoff::<B, GTarget>(gradient_target, v1(position), v1(mom), j)) by { // [C04.initial_step_size_is_the_doubling_halving_heuristic]
+    //@|         assert(v1(ulogp_prime)[0] == lf::<B, GTarget>(gradient_target, p0, XR::Fin(hpow(j))).1); // [C04.initial_step_size_is_the_doubling_halving_heuristic]
+    //@|     }
+    //@|     j = j + 1;
+    //@| }
+    //@anchor g2 scope=loop:1 pos=after match="^k = k \\* half"
+    //@| proof { assert(val(k) == XR::Fin(hpow(j))); assert(xr_mul(val(epsilon), val(k)) == XR::Fin(hpow(j))); } // [C04.initial_step_size_is_the_doubling_halving_heuristic]
     //@anchor e0 scope=fn pos=after match="^epsilon = half \\* k \\* epsilon"
-    //@| proof { assert(val(epsilon) is Fin && val(epsilon)->Fin_0 > 0real) by(nonlinear_arith) requires val(epsilon) == XR::Fin((1real / 2real) * val(k)->Fin_0 * 1real), val(k)->Fin_0 > 0real; }
+    //@| proof {
+    //@|     lemma_hpow_pos(j);
+    //@|     assert(!backoff::<B, GTarget>(gradient_target, v1(position), v1(mom), j)) by { // [C04.initial_step_size_is_the_doubling_halving_heuristic]
+    //@|         assert(v1(ulogp_prime)[0] == lf::<B, GTarget>(gradient_target, p0, XR::Fin(hpow(j))).1); // [C04.initial_step_size_is_the_doubling_halving_heuristic]
+    //@|     }
+    //@|     assert(val(epsilon) == XR::Fin(eps_seq(hpow(j), 0real, 0))) by(nonlinear_arith) // [C04.initial_step_size_is_the_doubling_halving_heuristic]
+    //@|         requires val(epsilon) == XR::Fin((1real / 2real) * hpow(j) * 1real), eps_seq(hpow(j), 0real, 0) == hpow(j) / 2real;
+    //@| }
+    //@| let ghost l0 = lap::<B, GTarget>(gradient_target, v1(position), v1(mom), XR::Fin(hpow(j)));
+    //@| let ghost mut n: nat = 0;
+    //@anchor e0b scope=fn pos=after match="^let mut log_accept_prob = "
+    //@| proof { assert(val(log_accept_prob) == l0); } // [C04.initial_step_size_is_the_doubling_halving_heuristic]
+    //@anchor e0c scope=fn pos=after match="^let a = "
+    //@| let ghost ar = dir(l0);
+    //@| proof { assert(val(a) == XR::Fin(ar)); assert(eps_seq(hpow(j), ar, 0) == hpow(j) / 2real); } // [C04.initial_step_size_is_the_doubling_halving_heuristic]
     //@loop 2
-    //@| invariant v1(ulogp_prime).len() == 1, v1(ulogp).len() == 1,
-    //@|     val(epsilon) is Fin && val(epsilon)->Fin_0 > 0real, val(a) == XR::Fin(1real) || val(a) == XR::Fin(-1real),
+    //@| invariant v1(ulogp) == seq![gradient_target.lp(v1(position))], v1(grad) == p0.g,
+    //@|     p0 == (Pt { x: v1(position), r: v1(mom), g: gradient_target.grad(v1(position)) }),
+    //@|     hpow(j) > 0real, ar == dir(l0), ar == 1real || ar == -1real, val(a) == XR::Fin(ar), // [C04.initial_step_size_is_the_doubling_halving_heuristic]
+    //@|     l0 == lap::<B, GTarget>(gradient_target, v1(position), v1(mom), XR::Fin(hpow(j))), // [C04.initial_step_size_is_the_doubling_halving_heuristic]
+    //@|     val(epsilon) == XR::Fin(eps_seq(hpow(j), ar, n)), // [C04.initial_step_size_is_the_doubling_halving_heuristic]
+    //@|     val(log_accept_prob) == (if n == 0 { l0 } else { lap::<B, GTarget>(gradient_target, v1(position), v1(mom), XR::Fin(eps_seq(hpow(j), ar, n))) }), // [C04.initial_step_size_is_the_doubling_halving_heuristic]
+    //@|     n > 0 ==> keep_going(ar, l0), // [C04.initial_step_size_is_the_doubling_halving_heuristic]
+    //@|     forall |i: nat| 1 <= i < n ==> keep_going(ar, lap::<B, GTarget>(gradient_target, v1(position), v1(mom), XR::Fin(#[trigger] eps_seq(hpow(j), ar, i)))), // [C04.initial_step_size_is_the_doubling_halving_heuristic]
     //@anchor e1a scope=loop:2 pos=start
-    //@| let ghost e_old = epsilon;
+    //@| proof { assert(keep_going(ar, val(log_accept_prob))); } // [C04.initial_step_size_is_the_doubling_halving_heuristic]
     //@anchor e1 scope=loop:2 pos=after match="^epsilon = epsilon \\* T :: from"
     //@| proof {
-    //@|     broadcast use ax_powf_pos;
-    //@|     let pw = powf_r(2real, val(a)->Fin_0);
-    //@|     assert(pw > 0real);
-    //@|     assert(val(epsilon) == XR::Fin(val(e_old)->Fin_0 * pw));
-    //@|     assert(val(e_old)->Fin_0 * pw > 0real) by(nonlinear_arith) requires val(e_old)->Fin_0 > 0real, pw > 0real;
+    //@|     ax_powf_one(2real); ax_powf_neg_one(2real);
+    //@|     assert(powf_r(2real, ar) == fac(ar)); // [C04.initial_step_size_is_the_doubling_halving_heuristic]
+    //@|     n = n + 1;
+    //@|     assert(val(epsilon) == XR::Fin(eps_seq(hpow(j), ar, n))); // [C04.initial_step_size_is_the_doubling_halving_heuristic]
+    //@| }
+    //@anchor e2 scope=loop:2 pos=end
+    //@| proof { assert(val(log_accept_prob) == lap::<B, GTarget>(gradient_target, v1(position), v1(mom), XR::Fin(eps_seq(hpow(j), ar, n)))); } // [C04.initial_step_size_is_the_doubling_halving_heuristic]
+    //@anchor e3 scope=fn pos=end
+    //@| proof {
+    //@|     lemma_eps_seq_pos(hpow(j), ar, n);
+    //@|     assert(!keep_going(ar, val(log_accept_prob))); // [C04.initial_step_size_is_the_doubling_halving_heuristic]
+    //@|     assert(heuristic::<B, GTarget>(gradient_target, v1(position), v1(mom), j, n, val(epsilon))); // [C04.initial_step_size_is_the_doubling_halving_heuristic]
     //@| }
     //@end
 
